@@ -248,15 +248,6 @@ class _HardTimeout(BaseException):
   pass
 
 
-def die_with_parent():
-  """Pool initializer: the kernel kills this worker when the driver process dies (PR_SET_PDEATHSIG)."""
-  try:
-    import ctypes
-    ctypes.CDLL('libc.so.6', use_errno=True).prctl(1, signal.SIGKILL)
-  except Exception:  # pylint: disable=broad-except
-    pass
-
-
 def fresh_stdio():
   """Workers are forked from a pool-maintenance *thread* of the parent (maxtasksperchild=1); if the main thread holds
   the lock of a stdio buffer at that instant the child inherits it locked and blocks forever on its first write
